@@ -67,7 +67,8 @@ def stepPooled (cfg : Cfg) (s : MSt) (t : Nat) (a : Act) : MSt × Res :=
   | .fin id =>
     if !s.active.contains id then (s, .err)
     else
-      let s := { s with active := s.active.erase id, completed := s.completed + 1, out := s.out ++ [id] }
+      let s := { s with active := s.active.erase id, completed := s.completed + 1,
+                        out := if cfg.sink then s.out ++ [id] else s.out }
       match s.queue with
       | [] => (s, .dash)
       | w :: rest =>
@@ -147,11 +148,13 @@ def stepReneging (cfg : Cfg) (s : MSt) (t : Nat) (a : Act) : MSt × Res :=
     | none => (s, .err)
     | some w =>
       let s := { s with transit := s.transit.eraseP (·.id == id) }
-      if expired w t then ({ s with reneged := s.reneged + 1, rout := s.rout ++ [id] }, .renege)
+      if expired w t then
+        -- `reneged_target is None`: counted, nothing forwarded
+        ({ s with reneged := s.reneged + 1, rout := if cfg.rtarget then s.rout ++ [id] else s.rout }, .renege)
       else ({ s with served := s.served + 1, active := s.active ++ [id] }, .start)
   | .fin id =>
     if !s.active.contains id then (s, .err)
-    else ({ s with active := s.active.erase id, out := s.out ++ [id] }, .dash)
+    else ({ s with active := s.active.erase id, completed := s.completed + 1, out := s.out ++ [id] }, .dash)
   | .done id => sinkStep s id
   | .rdone id => if s.rout.contains id then ({ s with rout := s.rout.erase id }, .dash) else (s, .err)
   | _ => (s, .err)
